@@ -201,6 +201,7 @@ R.contract("Message.from_bytes", params={"msg_data": "bytes", "plain_msg": "bool
                     ("e2e", "result.header.end_to_end_identifier == u32(msg_data[16:20])"),
                     ("header-present", "len(msg_data) >= 20")],
            raises=[Raise("ConversionError", "True", "may"), Raise("AvpDecodeError", "True", "may")],
+           modifies=["*Avp._avps"],
            allocates=True, props=["C02", "C04"])
 R.loop("Message.from_bytes", 0,
        invariants=[("pos-in-buffer", "0 <= upos(unpacker) and upos(unpacker) <= len(ubuf(unpacker))"),
